@@ -24,6 +24,11 @@ func (fr *Frame) execInstr(instr ssa.Instruction, st *State, reach string) {
 		addr := fr.val(x.Addr, st)
 		v := fr.val(x.Val, st)
 		fr.storeVia(addr, v, st, reach, x.Pos())
+		if al, ok := x.Addr.(*ssa.Alloc); ok && al.Heap && addr.Addr != nil && addr.Addr.Kind == akCell && len(addr.Addr.Path) == 0 && writeOnce(al) {
+			// a captured variable that is assigned exactly once (here) keeps this value whatever is called later
+			name, sort := c.cellHeap(addr.Addr.RootT)
+			c.frozenCells = append(c.frozenCells, frozenCell{name, sort, addr.Addr.Ref, c.termOf(v)})
+		}
 	case *ssa.UnOp:
 		fr.vals[x] = fr.unop(x, st, reach)
 	case *ssa.BinOp:
@@ -926,4 +931,89 @@ func isAtomNumber(t string) bool {
 		}
 	}
 	return true
+}
+
+type frozenCell struct{ heap, sort, ref, val string }
+
+// writeOnce: the variable behind al is stored to exactly once, in its own function, and is otherwise only read
+// (by that function or by the closures that capture it); its address does not escape in any other way.
+func writeOnce(al *ssa.Alloc) bool {
+	stores := 0
+	var readOnly func(v ssa.Value) bool
+	readOnly = func(v ssa.Value) bool {
+		refs := v.Referrers()
+		if refs == nil {
+			return false
+		}
+		for _, r := range *refs {
+			switch x := r.(type) {
+			case *ssa.UnOp:
+				if x.Op != token.MUL {
+					return false
+				}
+			case *ssa.DebugRef:
+			case *ssa.Store:
+				if x.Addr != v || x.Val == v {
+					return false
+				}
+				if v != ssa.Value(al) {
+					return false // a closure assigns to the captured variable
+				}
+				if _, isParam := x.Val.(*ssa.Parameter); !isParam {
+					return false // only parameter spills: stored on entry, before any closure or goroutine exists
+				}
+				stores++
+			case *ssa.MakeClosure:
+				fn, ok := x.Fn.(*ssa.Function)
+				if !ok {
+					return false
+				}
+				for i, b := range x.Bindings {
+					if b == v {
+						if i >= len(fn.FreeVars) || !readOnly(fn.FreeVars[i]) {
+							return false
+						}
+					}
+				}
+			default:
+				return false
+			}
+		}
+		return true
+	}
+	return readOnly(al) && stores == 1
+}
+
+// freeVarWriteOnce: the variable captured as fv is write-once in the function that declares it (see writeOnce).
+func freeVarWriteOnce(fv *ssa.FreeVar) bool {
+	fn := fv.Parent()
+	parent := fn.Parent()
+	if parent == nil {
+		return false
+	}
+	idx := -1
+	for i, f := range fn.FreeVars {
+		if f == fv {
+			idx = i
+		}
+	}
+	if idx < 0 {
+		return false
+	}
+	for _, b := range parent.Blocks {
+		for _, in := range b.Instrs {
+			mc, ok := in.(*ssa.MakeClosure)
+			if !ok || mc.Fn != ssa.Value(fn) || idx >= len(mc.Bindings) {
+				continue
+			}
+			switch x := mc.Bindings[idx].(type) {
+			case *ssa.Alloc:
+				return writeOnce(x)
+			case *ssa.FreeVar:
+				return freeVarWriteOnce(x)
+			}
+			return false
+		}
+	}
+	return false
 }
